@@ -64,7 +64,7 @@ def ev_obj(o, obj):
     if k == 'id': return obj.id == o[1]
     if k == 'idgen':
         if obj.id != o[1]: return False
-        if obj.generation is None: return None
+        if obj.generation is None: return False      # never seen created: no incarnation, whatever letter is asked for
         return obj.generation == letters_to_n(o[2])
     return lst(o[1], o[2], lambda x: ev_obj(x, obj))
 
@@ -120,7 +120,9 @@ def names_exact(t, word):
 
 
 def conn_name(msg):
-    return msg.obj.connection.name() if msg.obj.connection is not None else 'unknown'
+    """the connection the message arrived on (`unknown` only for a message that never went through a connection)"""
+    c = msg.obj.connection if msg.obj.connection is not None else getattr(msg, 'connection', None)
+    return c.name() if c is not None else 'unknown'
 
 
 def ev_pattern(p, msg):
@@ -291,7 +293,8 @@ def vocab(specs):
         rec = W.step(m)
         V['conn'].add(rec['conn'].name)
         t = rec['target']
-        V['type'].add(t.iface); V['id'].add(t.id); V['idgen'].add((t.id, t.gen)); V['name'].add(m['name'])
+        V['type'].add(t.iface); V['id'].add(t.id); V['name'].add(m['name'])
+        V['idgen'].add((t.id, t.gen if t.gen is not None else 0))      # (an object never seen created: ask for incarnation a, which it is not)
         pm = P[t.iface].msg(m['name']) if t.iface in P and not (t.iface == 'wl_registry' and m['name'] == 'bind') else None
         for i, a in enumerate(m['args']):
             pa = pm.args[i] if pm is not None and i < len(pm.args) else None
@@ -314,7 +317,7 @@ def vocab(specs):
             elif a[0] == 'obj' and a[2] is None and a[1]: V['type'].add(a[1])
             o = rec['args'][i]
             if o is not None:
-                V['type'].add(o.iface); V['id'].add(o.id); V['idgen'].add((o.id, o.gen))
+                V['type'].add(o.iface); V['id'].add(o.id); V['idgen'].add((o.id, o.gen if o.gen is not None else 0))
     V['type'].discard(None)
     return {k: sorted(v, key=repr) for k, v in V.items()}
 
